@@ -44,6 +44,9 @@ var branchCmd = &cobra.Command{
 
 		// add branch
 		if len(args) == 1 {
+			if client.Head.Commit == nil {
+				return fmt.Errorf("fatal: not a valid object name: '%s' has no commits yet", client.Head.Reference)
+			}
 			addBranchName := args[0]
 			addBranchHash := client.Head.Commit.Hash
 
